@@ -278,7 +278,7 @@ template <class G> void c09State(const G &g, const Model &m, ClauseSink &sink) {
             G c(g);
             G a(0);
             a = g;
-            if (!(c == g) || !(a == g) || keyOf(c, true) != keyOf(g, true) || keyOf(a, true) != keyOf(g, true)) sink.fail("c09.copy", "copy differs from its source " + m.str());
+            if (!(c == g) || !(a == g) || keyOf(c, true, true) != keyOf(g, true, true) || keyOf(a, true, true) != keyOf(g, true, true)) sink.fail("c09.copy", "copy differs from its source " + m.str());
             std::string before = keyOf(g, true);
             if (m.n > 0) {
                 c.addEdge(0, m.n - 1);
@@ -319,7 +319,7 @@ template <class G, class Elem, bool withSets, class MakeElem, class AddOne> void
         digest(keyOf(built, false));
         if (built.getSize() != wantSize)
             rep.violation("C09:" + cfgName + ":c09.ctor.size", "constructed from " + container + " [" + text + "]: getSize() " + std::to_string(built.getSize()) + ", expected " + std::to_string(wantSize), "--ctor-case " + container);
-        else if (!(built == exp) || !(exp == built) || keyOf(built, true) != keyOf(exp, true))
+        else if (!(built == exp) || !(exp == built) || keyOf(built, true, true) != keyOf(exp, true, true))
             rep.violation("C09:" + cfgName + ":c09.ctor.equal", "constructed from " + container + " [" + text + "] differs from adding the same edges one at a time: key " + keyOf(built, true) + " vs " + keyOf(exp, true),
                           "--ctor-case " + container);
     };
@@ -588,7 +588,7 @@ template <class G, class Elem, class MakeElem, class AddOne> void ctorLong(Repor
                 exp.resize(mx + 1);
                 for (auto &it : order) addOne(exp, it.i, it.j, it.v);
                 digest(keyOf(built, false));
-                if (built.getSize() != exp.getSize() || !(built == exp) || !(exp == built) || keyOf(built, false) != keyOf(exp, false))
+                if (built.getSize() != exp.getSize() || !(built == exp) || !(exp == built) || keyOf(built, false, true) != keyOf(exp, false, true))
                     rep.violation("C09:" + cfgName + ":c09.ctor.long", "constructed from a " + container + " of " + std::to_string(len) + " entries (pattern " + std::to_string(pattern) + ", repeated pairs with different values) differs from adding the same edges one at a time: key " +
                                                                            keyOf(built, false).substr(0, 300) + " vs " + keyOf(exp, false).substr(0, 300),
                                   "--variant ctorlong");
